@@ -38,6 +38,8 @@ func runC10(c *Ctx) {
 	c.lockLeakRule("R10.6")
 	c.rule("R10.10", "the reverse-call handler stored in the connection is a non-nil handler or the nil interface — never a nil pointer wrapped in the interface, which would pass the 'no handler' test and crash on the first inbound call")
 	c.noTypedNilHandler("R10.10")
+	c.ruleOpt("R10.11", "a pooled buffer is emptied on every way from the pool back to the pool (no path puts it back with what an earlier, possibly rejected, request left in it)")
+	c.pooledBufferReset("R10.11")
 	c.rule("R10.9", "a completion is delivered at most once per in-flight entry (the entry is removed on every path after delivering): a peer repeating a response cannot fill the one-slot mailbox and block the frame executor")
 	c.inflightRemovalRule("R10.9")
 	c.deliveryRules("R10.9", "R10.9")
@@ -1708,4 +1710,80 @@ func derefType(v ssa.Value, f *types.Var) types.Type {
 		return fl.X.Type()
 	}
 	return types.Typ[types.Invalid]
+}
+
+// pooledBufferReset: R10.11. A *bytes.Buffer taken from a sync.Pool carries whatever its last user left
+// unless someone Resets it. Between Get and every Put (direct, or by a deferred function) there must be a
+// Reset: an exit that puts the buffer back unemptied (the oversize-body rejection) prepends the rejected
+// bytes to the next request that draws the buffer — whose handler then runs although it was refused.
+func (c *Ctx) pooledBufferReset(rule string) {
+	p := c.P
+	n := 0
+	for _, fn := range p.Funcs {
+		if pkgOf(fn) != p.Root.Pkg {
+			continue
+		}
+		allInstrsRaw(fn, func(in ssa.Instruction) {
+			get, ok := in.(*ssa.Call)
+			if !ok || calleeName(get) != "(*sync.Pool).Get" {
+				return
+			}
+			// the buffer value
+			var buf ssa.Value
+			for _, ref := range *get.Referrers() {
+				if ta, ok := ref.(*ssa.TypeAssert); ok {
+					if pt, ok := ta.AssertedType.(*types.Pointer); ok && isNamed(pt.Elem(), "bytes", "Buffer") {
+						buf = ta
+						if ta.CommaOk {
+							for _, r2 := range *ta.Referrers() {
+								if ex, ok := r2.(*ssa.Extract); ok && ex.Index == 0 {
+									buf = ex
+								}
+							}
+						}
+					}
+				}
+			}
+			if buf == nil {
+				return
+			}
+			n++
+			isBuf := func(v ssa.Value) bool {
+				return c.dependsOn(v, func(x ssa.Value) bool { return x == buf }, 0, map[ssa.Value]bool{})
+			}
+			resets := func(x ssa.Instruction) bool {
+				switch y := x.(type) {
+				case *ssa.Call:
+					return calleeName(y) == "(*bytes.Buffer).Reset" && isBuf(y.Common().Args[0])
+				case *ssa.Defer:
+					// a deferred function that resets (and puts back)
+					if calleeName(y) == "(*bytes.Buffer).Reset" {
+						return true
+					}
+					for _, g := range c.funcsOf(y.Common().Value) {
+						found := false
+						allInstrs(g, func(z ssa.Instruction) {
+							if ci, ok := z.(*ssa.Call); ok && calleeName(ci) == "(*bytes.Buffer).Reset" {
+								found = true
+							}
+						})
+						if found {
+							return true
+						}
+					}
+				}
+				return false
+			}
+			puts := func(x ssa.Instruction) bool {
+				ci, ok := x.(*ssa.Call)
+				return ok && calleeName(ci) == "(*sync.Pool).Put" && len(ci.Common().Args) == 2 && isBuf(ci.Common().Args[1])
+			}
+			construct := fmt.Sprintf("%s: pooled buffer", fname(fn))
+			bad := reachFrom(in, puts, resets)
+			c.check(bad == nil, rule, construct, c.ipos(in), "emptied before every Put", "the buffer can go back to the pool without having been Reset on this path (an early-exit that rejects the request): the next request that draws it has the rejected bytes in front of its own — the refused request's handler runs after all, and the innocent caller gets its reply")
+		})
+	}
+	if n == 0 {
+		c.ok(rule, "no pooled buffers", "-", "nothing to check")
+	}
 }
